@@ -821,7 +821,11 @@ func (fx *fnExec) computeOrder() {
 	if fx.ct != nil {
 		for k := range fx.ct.Loops {
 			if k < 1 || k > len(heads) {
-				fx.fail("contract names loop %d but function has %d loops", k, len(heads))
+				// the loop the clauses were written for is gone: they are dropped (reported), the rest
+				// of the function is still checked - remaining loops then lack invariants and their
+				// obligations are simply harder, which is the sound direction
+				fx.warnings = append(fx.warnings, fmt.Sprintf("%s: contract names loop %d but function has %d loops; its clauses are ignored", fx.fn.String(), k, len(heads)))
+				delete(fx.ct.Loops, k)
 			}
 		}
 	}
